@@ -681,7 +681,7 @@ def run(ctx):
         as_str = ["file", "file", "str", "anon"][t.draw(4, "entry")]
         if as_str == "anon" and not anon_allowed(w, F):
             as_str = "file"
-        if getattr(w, "mm2_repo", False) and t.chance(1, 4, "direct-load-with-second-language"):
+        if getattr(w, "mm2_repo", False) and t.chance(1, 2 if prop == "C18" else 4, "direct-load-with-second-language"):
             leaves = [f for f in paths if f.endswith(".n") and not w.files[f].imports]
             if leaves:
                 X = t.pick(leaves, "direct2-file")
@@ -874,6 +874,13 @@ def op_corrupt_cycle(ctx, prop, sysm, w, F, params, cache, famtag, global_repo, 
     if not cands:
         return True
     X = t.pick(cands, "failing-file") if force is None else force[0]
+    served = [f for f in new if f != F and f in sysm.cache2]
+    late = force is None and served and prop == "C18" and t.chance(2, 3, "fail-late-while-another-repository-serves-an-import")
+    if late:
+        # an import of this load is served from the second language's own repository: fail as late as possible (the
+        # model processor of the main file), when every cleanup path has that model in its hands
+        X = F
+        ctx.probe("failure-with-an-import-served-from-the-other-repository")
     role = "main" if X == F else ("direct" if X in w.direct_imports(F) else "transitive")
     if anon:
         role += "-anon"
@@ -885,6 +892,8 @@ def op_corrupt_cycle(ctx, prop, sysm, w, F, params, cache, famtag, global_repo, 
     if prop == "C28":
         kinds = [k for k in kinds if k not in ("objproc", "modelproc")]
     kind = t.pick(kinds, "corruption") if force is None else force[1]
+    if late:
+        kind = t.pick(["modelproc", "objproc", "modelproc"], "late-corruption")
     if kind not in kinds:
         return True
     fe = w.files[X]
